@@ -158,6 +158,209 @@ func instrumentPlain(f *ast.File, fields map[string]bool) (int, error) {
 	return n, bad
 }
 
+// instrumentWork inserts vsyncgo.Touch(&w.field, isWrite) in front of every statement of the methods of Work
+// that uses one of Work's ordinary fields (those not of a sync type).  Returns the number of Touch calls.
+func instrumentWork(f *ast.File, local map[string]string) int {
+	fields := map[string]bool{}
+	ast.Inspect(f, func(n ast.Node) bool {
+		ts, ok := n.(*ast.TypeSpec)
+		if !ok || ts.Name.Name != "Work" {
+			return true
+		}
+		if st, ok := ts.Type.(*ast.StructType); ok {
+			for _, fl := range st.Fields.List {
+				if sel, ok := fl.Type.(*ast.SelectorExpr); ok {
+					if x, ok := sel.X.(*ast.Ident); ok && local[x.Name] != "" {
+						continue
+					}
+				}
+				for _, nm := range fl.Names {
+					fields[nm.Name] = true
+				}
+			}
+		}
+		return false
+	})
+	if len(fields) == 0 {
+		return 0
+	}
+	total := 0
+	for _, d := range f.Decls {
+		fd, ok := d.(*ast.FuncDecl)
+		if !ok || fd.Recv == nil || fd.Body == nil || len(fd.Recv.List) != 1 || len(fd.Recv.List[0].Names) != 1 {
+			continue
+		}
+		t := fd.Recv.List[0].Type
+		if st, ok := t.(*ast.StarExpr); ok {
+			t = st.X
+		}
+		if id, ok := t.(*ast.Ident); !ok || id.Name != "Work" {
+			continue
+		}
+		recv := fd.Recv.List[0].Names[0].Name
+		type use struct {
+			field string
+			write bool
+		}
+		fieldOf := func(e ast.Expr) (string, bool) {
+			sel, ok := e.(*ast.SelectorExpr)
+			if !ok || !fields[sel.Sel.Name] {
+				return "", false
+			}
+			x, ok := sel.X.(*ast.Ident)
+			return sel.Sel.Name, ok && x.Name == recv
+		}
+		var reads func(e ast.Expr, acc *[]use)
+		reads = func(e ast.Expr, acc *[]use) {
+			if e == nil {
+				return
+			}
+			ast.Inspect(e, func(n ast.Node) bool {
+				if _, isLit := n.(*ast.FuncLit); isLit {
+					return false
+				}
+				if x, ok := n.(ast.Expr); ok {
+					if fn, ok := fieldOf(x); ok {
+						*acc = append(*acc, use{fn, false})
+					}
+				}
+				return true
+			})
+		}
+		root := func(e ast.Expr) ast.Expr {
+			for {
+				switch x := e.(type) {
+				case *ast.IndexExpr:
+					e = x.X
+				case *ast.SliceExpr:
+					e = x.X
+				case *ast.ParenExpr:
+					e = x.X
+				case *ast.StarExpr:
+					e = x.X
+				default:
+					return e
+				}
+			}
+		}
+		var usesOf func(s ast.Stmt) []use
+		usesOf = func(s ast.Stmt) []use {
+			var acc []use
+			switch x := s.(type) {
+			case *ast.AssignStmt:
+				for _, l := range x.Lhs {
+					if fn, ok := fieldOf(root(l)); ok {
+						acc = append(acc, use{fn, true})
+						if ix, ok := l.(*ast.IndexExpr); ok {
+							reads(ix.Index, &acc)
+						}
+					} else {
+						reads(l, &acc)
+					}
+				}
+				for _, r := range x.Rhs {
+					reads(r, &acc)
+				}
+			case *ast.IncDecStmt:
+				if fn, ok := fieldOf(root(x.X)); ok {
+					acc = append(acc, use{fn, true})
+				}
+			case *ast.ExprStmt:
+				reads(x.X, &acc)
+			case *ast.ReturnStmt:
+				for _, r := range x.Results {
+					reads(r, &acc)
+				}
+			case *ast.IfStmt:
+				if x.Init != nil {
+					acc = append(acc, usesOf(x.Init)...)
+				}
+				reads(x.Cond, &acc)
+			case *ast.ForStmt:
+				if x.Init != nil {
+					acc = append(acc, usesOf(x.Init)...)
+				}
+				reads(x.Cond, &acc)
+				if x.Post != nil {
+					acc = append(acc, usesOf(x.Post)...)
+				}
+			case *ast.RangeStmt:
+				reads(x.X, &acc)
+			case *ast.SwitchStmt:
+				if x.Init != nil {
+					acc = append(acc, usesOf(x.Init)...)
+				}
+				reads(x.Tag, &acc)
+			case *ast.GoStmt:
+				reads(x.Call, &acc)
+			case *ast.DeferStmt:
+				reads(x.Call, &acc)
+			}
+			return acc
+		}
+		touches := func(us []use) []ast.Stmt {
+			seen := map[use]bool{}
+			var out []ast.Stmt
+			for _, u := range us {
+				if seen[u] || (!u.write && seen[use{u.field, true}]) {
+					continue
+				}
+				seen[u] = true
+				w := "false"
+				if u.write {
+					w = "true"
+				}
+				out = append(out, &ast.ExprStmt{X: &ast.CallExpr{
+					Fun:  &ast.SelectorExpr{X: ast.NewIdent("vsyncgo"), Sel: ast.NewIdent("Touch")},
+					Args: []ast.Expr{&ast.UnaryExpr{Op: token.AND, X: &ast.SelectorExpr{X: ast.NewIdent(recv), Sel: ast.NewIdent(u.field)}}, ast.NewIdent(w)},
+				}})
+				total++
+			}
+			return out
+		}
+		var doList func(list []ast.Stmt) []ast.Stmt
+		var doStmt func(s ast.Stmt)
+		doStmt = func(s ast.Stmt) {
+			switch x := s.(type) {
+			case *ast.BlockStmt:
+				x.List = doList(x.List)
+			case *ast.IfStmt:
+				x.Body.List = doList(x.Body.List)
+				if x.Else != nil {
+					doStmt(x.Else)
+				}
+			case *ast.ForStmt:
+				x.Body.List = doList(x.Body.List)
+				// the condition is evaluated again after every iteration
+				var acc []use
+				reads(x.Cond, &acc)
+				x.Body.List = append(x.Body.List, touches(acc)...)
+			case *ast.RangeStmt:
+				x.Body.List = doList(x.Body.List)
+			case *ast.SwitchStmt:
+				for _, c := range x.Body.List {
+					if cc, ok := c.(*ast.CaseClause); ok {
+						cc.Body = doList(cc.Body)
+					}
+				}
+			case *ast.LabeledStmt:
+				doStmt(x.Stmt)
+			}
+		}
+		doList = func(list []ast.Stmt) []ast.Stmt {
+			var out []ast.Stmt
+			for _, s := range list {
+				out = append(out, touches(usesOf(s))...)
+				doStmt(s)
+				out = append(out, s)
+			}
+			return out
+		}
+		fd.Body.List = doList(fd.Body.List)
+	}
+	return total
+}
+
 func rewrite(src string, plain bool) ([]byte, error) {
 	fset := token.NewFileSet()
 	f, err := parser.ParseFile(fset, src, nil, parser.ParseComments)
@@ -254,7 +457,7 @@ func rewrite(src string, plain bool) ([]byte, error) {
 	if bad != nil {
 		return nil, bad
 	}
-	nPlain := 0
+	nPlain, nTouch := 0, 0
 	if plain {
 		fields := plainFields(f, local)
 		if len(fields) == 0 {
@@ -268,6 +471,8 @@ func rewrite(src string, plain bool) ([]byte, error) {
 		if nPlain == 0 {
 			return nil, fmt.Errorf("no access to a plain field of cacheEntry found")
 		}
+		nTouch = instrumentWork(f, local)
+		f.Comments = nil // positions of comments no longer fit the rewritten statements
 	}
 	// import used by the rewritten go statements
 	f.Decls = append([]ast.Decl{&ast.GenDecl{Tok: token.IMPORT, Specs: []ast.Spec{
@@ -278,7 +483,7 @@ func rewrite(src string, plain bool) ([]byte, error) {
 	if err := printer.Fprint(&buf, fset, f); err != nil {
 		return nil, err
 	}
-	fmt.Fprintf(&buf, "\nvar _ = vsyncgo.Go\n\n// GoStatements is the number of go statements that were rewritten.\nconst GoStatements = %d\n\n// PlainAccesses is the number of plain accesses to cacheEntry fields that were made scheduling points.\nconst PlainAccesses = %d\n", nGo, nPlain)
+	fmt.Fprintf(&buf, "\nvar _ = vsyncgo.Go\n\n// GoStatements is the number of go statements that were rewritten.\nconst GoStatements = %d\n\n// PlainAccesses is the number of plain accesses to cacheEntry fields that were made scheduling points.\nconst PlainAccesses = %d\n\n// WorkTouches is the number of access markers inserted in the methods of Work.\nconst WorkTouches = %d\n", nGo, nPlain, nTouch)
 	return buf.Bytes(), nil
 }
 
@@ -304,6 +509,7 @@ const Available = false
 const Reason = %q
 const GoStatements = 0
 const PlainAccesses = 0
+const WorkTouches = 0
 
 type Work struct{}
 
